@@ -309,6 +309,15 @@ pub fn run(reg: &dyn Registry, ctx: &Ctx) -> Outcome {
             }
         }
     }
+    // the public seed wrapper type: Debug under many formatting-flag combinations, AsRef / AsMut / Default
+    {
+        let (n, bad) = reg.seed_type_format_probe();
+        ctx.add("seed_type_format_calls", n);
+        ctx.add("transitions", n);
+        if let Some(w) = bad {
+            ctx.violation("C14:Seed512:format", &w, json!({"kind":"note","what":w}));
+        }
+    }
     // bursts of three consecutive probe deltas
     let menu: Vec<i64> = vec![0, 1, -1, 1 << 30, -(1 << 30), -(1 << 30) + 1, (1 << 30) + (1 << 29), -((1 << 30) + (1 << 29)), (1i64 << 31) - 1, -(1i64 << 31), (1i64 << 31) + 5, (1i64 << 32) - 1];
     let mut bursts: Vec<(i64, i64, i64)> = Vec::new();
